@@ -218,5 +218,8 @@ def check(ck: Check) -> None:
     ck.run("R18.4", "hash parameters", lambda: r18_4(ck))
     ck.run("R18.5", "wire format has not drifted", lambda: r18_5(ck))
     ck.run("R18.6", "genesis constant", lambda: r18_6(ck))
+    from .c05 import r05_4, r05_7
+    ck.run("R05.7", "evidence / target of a block are recomputed from ITS OWN ancestors (real blocks arriving as a fork stay valid)",
+           lambda: (r05_7(ck), r05_4(ck)))
     ck.assume("/verif/reference/* were recorded from the pinned tree, whose checkpoints / genesis are the real network's")
     ck.note("in bulk download only every 10,000th height runs the checkpoint comparison (provisional acceptance, rolled back) — outside this property's observation point")
